@@ -22,7 +22,9 @@ def words (s : String) : List String := (s.splitOn " ").filter (· ≠ "")
 def nats (ws : List String) : Option (List Nat) := ws.mapM String.toNat?
 
 def showView (v : List (Nat × Nat × Int × Nat) × List Nat) : String :=
+  let last := match v.1.getLast? with | some (a, _, _, _) => toString a | none => "-"
   "ok " ++ " ".intercalate (v.1.map fun (a, u, x, m) => s!"{a}:{u}:{x}:{m}") ++ " | " ++ " ".intercalate (v.2.map toString)
+    ++ s!" | len={v.1.length} last={last}"
 
 def opLine (w : World) (ws : List String) : World × String :=
   match ws with
